@@ -2,8 +2,9 @@
 R1: every shipped rule/era/info entry, read through the real accessor bodies of Brokers.h by constant
     propagation, equals its recorded TZ line (decides clause 2 of the statement).
 R2: accessor <-> field <-> read-width table.
-R3: encoder (argenerator.py) / decoder (Brokers.h) constant pairing.
-R4: admissibility: what the transformer lets through fits the encoded field widths."""
+R3: sweep round trip (acv/pipeline.py, rules_C12b.py): the compiler is interpreted on TZ source text that sweeps the encoded
+    quantities, what it writes is parsed and read back through the same accessors; every emitted entry equals its source line.
+R5: every constant the generator writes fits the member it initialises."""
 import ast
 
 from .common import AnalysisError, Report
@@ -17,15 +18,23 @@ META = {
     'explanation': 'E-TAB + constant propagation: each of the ~900 rule and ~950 era entries of zonedb/zonedbx is read '
                    'through the IR of the Brokers.h accessors (timeCodeToMinutes, toSuffix, toDeltaMinutes, '
                    'toOffsetMinutes, ...) with the entry constants substituted, and compared with the recorded '
-                   'Rule/era line parsed by the TZ grammar; accessor/field/width table; encoder/decoder constant pairing; thorough tier: '
-                   'the same table and accessor rules on the second preprocessor configuration (ACE_TIME_USE_PROGMEM 0, twin accessors).',
+                   'Rule/era line parsed by the TZ grammar; accessor/field/width table. E-SEQ sweep round trip: the compiler '
+                   '(Extractor, Transformer, TzDbCollector, ArduinoGenerator) is interpreted over its Python ast on TZ source text '
+                   'whose lines sweep STDOFF, SAVE, fixed RULES offsets, AT and UNTIL times with every suffix, values on and off the '
+                   'granularity and just inside / outside the capacity of each field; the C++ sources it writes are parsed by clang '
+                   'and every entry is read back through the same accessor IR and compared with its source line (thorough tier: each '
+                   'field over its whole admissible range, both scopes, with and without --strict; the same table and accessor rules '
+                   'on the second preprocessor configuration ACE_TIME_USE_PROGMEM 0).',
     'decided': 'shipped tables == recorded lines as seen through the library accessors (clause 2); every accessor reads '
-               'the field it is named for with the width of that field; encoder and decoder use paired constants, masks and biases; '
-               'the minute remainder is emitted on every path where it can be non-zero; the largest value the deltaCode template '
-               'can spell is compared with the range of the member it initialises (known finding: it does not fit int8_t)',
-    'not_decided': 'decode(encode(x)) == x as an arithmetic identity for every admissible x (div/mod proof)',
+               'the field it is named for with the width of that field; for every era / rule of the sweeps that the transformer admits, '
+               'decode(encode(value)) == value at the granularity the scope keeps, whatever templates, masks, shifts and helpers either '
+               'side uses; a value outside the capacity of its field is not admitted (else it reads back wrong and is reported); every '
+               'constant written fits its member (known finding: extended deltaCode for minute remainders >= 8 does not fit int8_t)',
+    'not_decided': 'values outside the sweeps (the quick sweep is a sample of each field, the thorough sweeps are exhaustive per field, not over '
+                   'the product of all fields)',
     'assumptions': ['clang 14 parser', 'CPython ast', 'shim pgm_read_* are identity loads of the stated width',
-                    'TZ line grammar in acv/tzline.py; calendar resolution of UNTIL day expressions by datetime'],
+                    'TZ line grammar in acv/tzline.py; calendar resolution of UNTIL day expressions by datetime',
+                    'the interpreted compiler is driven in the order tzcompiler.main() drives it (glue replicated in acv/pipeline.py)'],
 }
 
 RULE_ACCESSORS = ['fromYearTiny', 'toYearTiny', 'inMonth', 'onDayOfWeek', 'onDayOfMonth', 'atTimeMinutes',
@@ -113,27 +122,44 @@ def suffix_consts(lib, scope):
     return out
 
 
-def check_db(cfg, R, lib, T):
-    scope = T.scope
-    ns = 'ace_time::%s::' % scope
-    ev = CEval(lib)
-    suf = suffix_consts(lib, scope)
-    off_gran = 900 if scope == 'basic' else 60
-    at_gran = 60
-    rb_q, eb_q = ns + 'ZoneRuleBroker', ns + 'ZoneEraBroker'
-    rfield, efield = broker_field(lib, rb_q), broker_field(lib, eb_q)
-    racc = {a: lib.fn('%s::%s' % (rb_q, a)) for a in RULE_ACCESSORS}
-    eacc = {a: lib.fn('%s::%s' % (eb_q, a)) for a in ERA_ACCESSORS}
+class EntryReader:
+    """reads one table entry through the IR of the broker accessors (acv/ceval.py: typed wrap at every cast and read width)"""
 
-    def read(accs, field, obj, construct, loc, rid):
+    def __init__(self, lib, scope):
+        self.lib, self.scope = lib, scope
+        self.ns = 'ace_time::%s::' % scope
+        self.ev = CEval(lib)
+        rb_q, eb_q = self.ns + 'ZoneRuleBroker', self.ns + 'ZoneEraBroker'
+        self.rfield, self.efield = broker_field(lib, rb_q), broker_field(lib, eb_q)
+        self.racc = {a: lib.fn('%s::%s' % (rb_q, a)) for a in RULE_ACCESSORS}
+        self.eacc = {a: lib.fn('%s::%s' % (eb_q, a)) for a in ERA_ACCESSORS}
+
+    def _read(self, accs, field, obj):
         out = {}
         this = Obj({field: obj})
         for a, f in accs.items():
             try:
-                out[a] = ev.call(f, this, ())
+                out[a] = self.ev.call(f, this, ())
             except Unknown as e:
                 raise AnalysisError('%s: accessor %s cannot be folded on table constants (%s)' % (f.loc, f.name, e))
         return out
+
+    def rule(self, cells):
+        return self._read(self.racc, self.rfield, typed_obj(self.lib, self.ns + 'ZoneRule', cells))
+
+    def era(self, cells):
+        return self._read(self.eacc, self.efield, typed_obj(self.lib, self.ns + 'ZoneEra', cells))
+
+
+def check_db(cfg, R, lib, T):
+    scope = T.scope
+    ns = 'ace_time::%s::' % scope
+    rd = EntryReader(lib, scope)
+    ev = rd.ev
+    suf = suffix_consts(lib, scope)
+    off_gran = 900 if scope == 'basic' else 60
+    delta_gran = 900             # SAVE and fixed RULES offsets are held in quarter hours in both scopes
+    at_gran = 60
 
     # which letters array belongs to a rules array
     letters_of = {}
@@ -151,7 +177,7 @@ def check_db(cfg, R, lib, T):
             except tzline.LineError as x:
                 R.violation('R1-rule', c, e.loc, 'recorded line is not a Rule line (%s)' % x)
                 continue
-            got = read(racc, rfield, typed_obj(lib, ns + 'ZoneRule', e.cells), c, e.loc, 'R1-rule')
+            got = rd.rule(e.cells)
             if ln['anchor']:
                 want = dict(fromYearTiny=-127, toYearTiny=-127, inMonth=1, onDayOfWeek=0, onDayOfMonth=1,
                             atTimeMinutes=0, atTimeSuffix=suf['w'], deltaMinutes=0)
@@ -162,7 +188,7 @@ def check_db(cfg, R, lib, T):
                     inMonth=ln['month'], onDayOfWeek=ln['dow'], onDayOfMonth=ln['dom'],
                     atTimeMinutes=tzline.trunc_to(ln['at_seconds'], at_gran) // 60,
                     atTimeSuffix=suf[ln['at_suffix']],
-                    deltaMinutes=_sdiv(tzline.trunc_to(ln['save_seconds'], off_gran), 60))
+                    deltaMinutes=_sdiv(tzline.trunc_to(ln['save_seconds'], delta_gran), 60))
             bad = ['%s: accessor gives %r, recorded line says %r' % (k, got[k], want[k]) for k in want if got[k] != want[k]]
             # letter
             lt = ln['letter']
@@ -188,11 +214,11 @@ def check_db(cfg, R, lib, T):
             except tzline.LineError as x:
                 R.violation('R1-era', c, e.loc, 'recorded line is not an era line (%s)' % x)
                 continue
-            got = read(eacc, efield, typed_obj(lib, ns + 'ZoneEra', e.cells), c, e.loc, 'R1-era')
+            got = rd.era(e.cells)
             fixed = ln['rules'][1] if isinstance(ln['rules'], tuple) and ln['rules'][0] == 'fixed' else 0
             want = dict(
                 offsetMinutes=_sdiv(tzline.trunc_to(ln['offset_seconds'], off_gran), 60),
-                deltaMinutes=_sdiv(tzline.trunc_to(fixed, off_gran), 60),
+                deltaMinutes=_sdiv(tzline.trunc_to(fixed, delta_gran), 60),
                 untilYearTiny=127 if ln['until_year'] is None else ln['until_year'] - EPOCH_YEAR,
                 untilMonth=ln['until_month'], untilDay=ln['until_day'],
                 untilTimeMinutes=tzline.trunc_to(ln['until_seconds'], at_gran) // 60,
@@ -347,9 +373,9 @@ SELFTEST = [
          find='    uint8_t untilDay() const { return mZoneEra->untilDay; }', replace='    uint8_t untilDay() const { return mZoneEra->untilMonth; }',
          rule='R-alt', tier='thorough'),
     dict(id='decoder-delta-mask-lost', file='src/ace_time/internal/Brokers.h',
-         find='return ((int8_t)((uint8_t)deltaCode & 0x0f) - 4) * 15;', replace='return ((int8_t)deltaCode - 4) * 15;', rule='R3', construct='toDeltaMinutes'),
+         find='return ((int8_t)((uint8_t)deltaCode & 0x0f) - 4) * 15;', replace='return ((int8_t)deltaCode - 4) * 15;', rule='R3'),
     dict(id='encoder-basic-minute-remainder-dropped', file='tools/zonedb/argenerator.py', find='    if timeMinute > 0:', replace="    if scope == 'extended' and timeMinute > 0:",
-         rule='R3', construct='_to_code_and_modifier'),
+         rule='R3'),
     dict(id='decoder-offset-shift', file='src/ace_time/internal/Brokers.h',
          find='return (offsetCode * 15) + (((uint8_t)deltaCode & 0xf0) >> 4);', replace='return (offsetCode * 15) + (((uint8_t)deltaCode & 0xf0) >> 3);', rule='R3'),
     dict(id='accessor-reads-wrong-field', file='src/ace_time/internal/Brokers.h', unique=False, nth=0,
@@ -361,19 +387,19 @@ SELFTEST = [
     dict(id='numEras-cell', file='src/ace_time/zonedbx/zone_infos.cpp', regex=True, unique=False, nth=0,
          find=r'2 /\*numEras\*/', replace='1 /*numEras*/', rule='R1-info'),
     dict(id='encoder-delta-bias-5', file='tools/zonedb/argenerator.py', find='return f"({seconds // 900} + 4)"',
-         replace='return f"({seconds // 900} + 5)"', rule='R3', construct='_to_extended_delta_code'),
+         replace='return f"({seconds // 900} + 5)"', rule='R3'),
     dict(id='encoder-time-divisor', file='tools/zonedb/argenerator.py', find='timeMinute = seconds % 900 // 60',
-         replace='timeMinute = seconds % 600 // 60', rule='R3', construct='_to_code_and_modifier'),
+         replace='timeMinute = seconds % 600 // 60', rule='R3'),
     dict(id='encoder-offset-truncating-division', file='tools/zonedb/argenerator.py', find='offsetCode = offsetSeconds // 900  # truncate to -infinty',
-         replace='offsetCode = div_to_zero(offsetSeconds, 900)', rule='R3', construct='_to_extended_offset_and_delta'),
+         replace='offsetCode = div_to_zero(offsetSeconds, 900)', rule='R3'),
     dict(id='template-cells-swapped', file='tools/zonedb/argenerator.py',
-         find='    {inMonth} /*inMonth*/,\n    {onDayOfWeek} /*onDayOfWeek*/,', replace='    {onDayOfWeek} /*onDayOfWeek*/,\n    {inMonth} /*inMonth*/,', rule='R3-order'),
+         find='    {inMonth} /*inMonth*/,\n    {onDayOfWeek} /*onDayOfWeek*/,', replace='    {onDayOfWeek} /*onDayOfWeek*/,\n    {inMonth} /*inMonth*/,', rule='R3'),
     dict(id='suffix-constant-collides', file='src/ace_time/internal/ZoneContext.inc', find='kSuffixS = 0x10', replace='kSuffixS = 0x01', rule='R3'),
     dict(id='save-guard-widened', file='tools/tzdb/transformer.py', regex=True, find=r'\n {16}if delta_code < 0 or delta_code > 15:',
-         replace=r'\n                if delta_code < 0 or delta_code > 16:', rule='R4', construct='_create_rules_with_expanded_delta_offset'),
+         replace=r'\n                if delta_code < 0 or delta_code > 16:', rule='R3'),
     dict(id='fixed-rules-guard-removed', file='tools/tzdb/transformer.py', regex=True,
          find=r"                    delta_code = div_to_zero\(\n                        rules_delta_seconds_truncated, 900\) \+ 4\n                    if delta_code < 0 or delta_code > 15:",
-         replace="                    delta_code = 4\\n                    if delta_code < 0 or delta_code > 15:", rule='R4', construct='_create_zones_with_rules_expansion'),
+         replace="                    delta_code = 4\\n                    if delta_code < 0 or delta_code > 15:", rule='R3'),
     dict(id='decoder-time-commuted-silent', file='src/ace_time/internal/Brokers.h', find='return code * (uint16_t) 15 + (modifier & 0x0f);',
          replace='return (modifier & 0x0f) + (uint16_t) 15 * code;', expect='silent'),
     dict(id='decoder-delta-commuted-silent', file='src/ace_time/internal/Brokers.h',
